@@ -11,10 +11,12 @@ CHECKS = {
          "and no panicking call exists; (b) a TableRef can only come out of Cursor::finish after check_in_bounds(pos)? or be "
          "re-wrapped from an existing one, and Cursor.pos only advances by saturating_add -- the single gate that licenses the "
          "generated getters' unwraps; (c) every type instantiating the zero-copy reads has alignment 1 and every packed record "
-         "has size == RAW_BYTE_LEN; (e) every call-graph cycle in read-fonts is depth-bounded (stack-overflow clause); (f) "
+         "has size == RAW_BYTE_LEN, and no type alias or field type instantiates a generic reader that casts bytes to a bare type "
+         "parameter with a native multi-byte number (F35: ExtendedStateTableU16, repaired); (e) every call-graph cycle in read-fonts is depth-bounded (stack-overflow clause); (f) "
          "read-fonts has no unsafe code, no mutable/interior-mutable statics, no time/env/random/thread observation and every "
          "pointer-to-integer cast feeds only address differences (purity for every call, thread and address); (g) the explicit "
-         "unwrap/expect/panic! inventory of hand-written readers equals the confirmed 39 sites; (h) census of every indexing / "
+         "unwrap/expect/panic! inventory of hand-written readers equals the confirmed 39 sites, and the one whose guard lives in its "
+         "caller (parse_entry's unreachable!() for the blend operator) has that guard checked; (h) census of every indexing / "
          "slicing / split / copy / division site in hand-written font-types and read-fonts code: each is proved safe for every "
          "input by the interval analysis (guards, lengths, struct-field invariants inferred on every run) or is on the baseline of "
          "sites that existed on the pinned tree (listed per function as confirmed or untriaged = not claimed) -- a new unproven "
